@@ -92,6 +92,7 @@ class Prop(object):
         u.append(('concat', {}))
         u.append(('files', {}))
         u.append(('foreign-component', {}))
+        u.append(('unknown-algorithms', {}))
         u.append(('gpg', {}))
         d = 2 if tier == 'quick' else 3
         for op in H.OPS:
@@ -463,6 +464,67 @@ class Prop(object):
                         r.viol('foreign-component', {'kind': 'foreign-component', 'foreign': fname, 'where': pname}, dict(case, only=key_id),
                                'key with %d subkeys and a %s %s: %s' % (nsub, fname, pname, '; '.join(probs[:2])))
         r.samples.append({'foreign_components': ['v5-subkey', 'private-tag'], 'positions': ['end', 'before-first-subkey', 'between-subkeys']})
+        return r
+
+    def c_unknown_algorithms(self, case):
+        """A key that carries a third-party certification made with a public-key algorithm this implementation has no parser for, and a (v4) subkey of
+        such an algorithm with its binding signature - what keys on key servers look like once newer algorithms are in use.  PGPy keeps such packets
+        opaquely; export, a second round, a copy and the public twin carry them octet for octet."""
+        import pgpy
+        r = Res()
+        prim = K.raw('ed25519a', K.T0)
+        pbody = rkeys.public_body(prim)
+        uid = b'Future Proof <future@example.org>'
+        mp = wire.mpi_encode(0x1234567890abcdef1234567890abcdef) + wire.mpi_encode(0xfedcba9876543210fedcba98)
+
+        def by_prim(typ, subj, extra=b''):
+            return wire.packet(2, rsig.make(prim, typ, 8, rsig.sp_created(K.T0 + 5) + rsig.sp_issuer_fpr(rkeys.fingerprint(prim)) + extra, rsig.sp_issuer(rkeys.keyid(prim)), subj))
+        for alg in (21, 27, 100):
+            third = wire.packet(2, bytes([4, 0x10, alg, 8]) + (6).to_bytes(2, 'big') + rsig.sp_created(K.T0 + 6) + (10).to_bytes(2, 'big') + rsig.sp_issuer(bytes(range(1, 9))) + b'\xab\xcd' + mp)
+            sbody = b'\x04' + K.T0.to_bytes(4, 'big') + bytes([alg]) + mp
+            for secret in (False, True):
+                for parts in ('certification', 'subkey', 'both'):
+                    key_id = '%d/%s/%s' % (alg, 'secret' if secret else 'public', parts)
+                    if case.get('only') and case['only'] != key_id:
+                        continue
+                    r.states += 1
+                    blob = (rkeys.secret_packet(prim) if secret else rkeys.public_packet(prim)) + wire.packet(13, uid) + by_prim(0x13, {'key': pbody, 'uid': uid}, wire.subpacket(27, b'\x03'))
+                    if parts in ('certification', 'both'):
+                        blob += third
+                    if parts in ('subkey', 'both'):
+                        blob += wire.packet(14, sbody) + by_prim(0x18, {'key': pbody, 'subkey': sbody}, wire.subpacket(27, b'\x0c'))
+                    want = sorted((p['tag'], p['body']) for p in wire.read_packets(blob))
+                    want_pub = sorted((6 if t == 5 else t, pbody if t == 5 else b) for t, b in want)
+                    probs = []
+                    if secret and parts != 'certification':
+                        continue        # (the secret part of a key of an unknown algorithm cannot be written by anybody)
+                    try:
+                        k = pgpy.PGPKey.from_blob(blob)[0]
+                    except Exception:
+                        # a key PGPy does not accept is outside the property (algorithm ids it does not know at all are refused at import)
+                        r.rejected += 1
+                        r.outcomes['unknown-algorithms:rejected-at-import'] += 1
+                        continue
+                    try:
+                        forms = [('first export', bytes(k), want), ('export of a copy', bytes(copy.copy(k)), want), ('public twin', bytes(k.pubkey), want_pub),
+                                 ('second round', bytes(pgpy.PGPKey.from_blob(bytes(k))[0]), want)]
+                        for fname, out, w in forms:
+                            r.transitions += 1
+                            try:
+                                got = sorted((p['tag'], p['body']) for p in wire.read_packets(out))
+                            except wire.WireError as e:
+                                probs.append('%s is not a well-formed packet sequence: %r' % (fname, e))
+                                continue
+                            if got != w:
+                                lost = [t for t, b in w if (t, b) not in got]
+                                probs.append('%s: packets with tags %r are not carried octet for octet' % (fname, lost))
+                    except Exception as e:
+                        probs.append('raises %r' % (e,))
+                    r.outcomes['unknown-algorithms:' + ('ok' if not probs else 'violation')] += 1
+                    if probs:
+                        r.viol('unknown-algorithms', {'kind': 'opaque-component', 'parts': parts, 'form': probs[0].split(':')[0].split(' is ')[0]}, dict(case, only=key_id),
+                               'key (%s) with algorithm %d in its %s: %s' % ('secret' if secret else 'public', alg, parts, '; '.join(probs[:2])))
+        r.samples.append({'algorithms_without_parser': [21, 27, 100]})
         return r
 
     def c_bfs(self, case):
